@@ -9,7 +9,8 @@ from ..conc import fmt, io_selftest, mark_interleaved, run_scheduled
 
 LEVEL = 'exploration'
 RULE = (
-    'programs of 2-4 clients x 1-4 calls from {set, add, incr, decr, get, [], pop, delete, touch, in, len, list()} on '
+    'programs of 2-4 clients x 1-4 calls from {set, add, a set that fails at its row write, incr, decr, get, [], pop, delete, touch, in, len, '
+    'list(), close(), construct-and-close a further handle} on '
     'keys {x, y, n} with inline and file-backed values (distinct fill bytes per writer), a generated initial state, a '
     'sharing mode (one Cache object shared by the threads / one Cache object per thread, i.e. separate SQLite '
     'connections), statistics or LRU on in some cases, and a generated schedule: run-length segments [client, steps] '
